@@ -97,6 +97,7 @@ type victimTracer struct {
 	polyEvals      map[int]string
 	problems       []string // oracle (3) violations noticed while the run goes on
 	crashOpen      []int64
+	planLeft       int  // crash points not reached when the scheduled part of the run ended
 	crashedPending bool // some crash happened while a DKG with outstanding commitments/evals was stored
 }
 
@@ -416,6 +417,17 @@ func runC08(sc Scenario, victim int, plan []crashPoint, ref *c08Result, fail fai
 	// the plain fair schedule also during the DKG blocks
 	r.plainSchedule = true
 	res.execErr = r.execute()
+	if res.execErr == nil {
+		// no more crashes; a few more blocks so that a victim killed in the
+		// last blocks of the run can catch up before the final comparison
+		vt.planLeft = len(vt.plan)
+		vt.plan = nil
+		vt.arm()
+		for i := 0; i < 3; i++ {
+			r.l1++
+			r.block(false)
+		}
+	}
 	res.units, res.bcasts, res.crashes, res.zombie, res.restarts = vt.units, vt.bcasts, vt.crashes, vt.zombie, vt.node().Restarts
 	res.unsupported = r.unsupported()
 	res.h0 = r.h0
@@ -441,7 +453,7 @@ func runC08(sc Scenario, victim int, plan []crashPoint, ref *c08Result, fail fai
 			}
 		}
 	}
-	if len(plan) > 0 && len(vt.plan) == len(plan) {
+	if len(plan) > 0 && vt.planLeft == len(plan) {
 		// the crash point was never reached
 		res.prefixOK = false
 		res.divergence = fmt.Sprintf("crash point %v never reached (%d round trips, %d broadcasts in this run)", plan[0], len(vt.units), len(vt.bcasts))
@@ -548,7 +560,7 @@ func runC08(sc Scenario, victim int, plan []crashPoint, ref *c08Result, fail fai
 		}
 	}
 	other := r.nodes[(victim+2)%sc.N] // honest in every variant
-	if len(applied) < int(other.syncedTo())-1 {
+	if int64(len(applied)) != other.syncedTo() {
 		fail("victim-stuck", "victim applied blocks up to %d, a keyper that never crashed up to %d\n%s", len(applied), other.syncedTo(), hist())
 	}
 	for _, tbl := range []string{"eons", "tendermint_batch_config", "tendermint_encryption_key", "outgoing_eon_keys", "last_batch_config_sent", "puredkg", "poly_evals"} {
